@@ -1,6 +1,7 @@
 """C07 - containers and stores are bounded, conservative, ordered, never strand a request."""
 import re
-from harness import kprops
+from harness import kprops, kbridge
+from harness.kbridge import EXTRA_MODULES, TRUSTED_EXTRA, prepare
 from vlib.util import unbits
 ASSUMPTIONS = ['integer amounts and items; PriorityStore items are plain integers (ties are indistinguishable)',
                'filters are drawn from a family of five predicates']
@@ -98,6 +99,8 @@ def oracle_fcfs(case, lines, runner=None):
     return []
 
 def run(ctx):
-    return kprops.run_kernel(ctx, 'C07', SPEC, 1500, 40000, oracles=[oracle_bounds, oracle_heads, oracle_handout, oracle_conservation, oracle_fcfs],
+    res = kprops.run_kernel(ctx, 'C07', SPEC, 1500, 40000, oracles=[oracle_bounds, oracle_heads, oracle_handout, oracle_conservation, oracle_fcfs],
                              nontrivial=lambda c, lines: any(('pq' in l and not re.search(r'pq0 gq0', l)) for l in lines if l.startswith('S ')),
                              rule='seeded put/get/cancel histories of 2-8 processes on containers and the three stores; non-trivial = distinct history in which some request had to queue')
+    res['coverage'].update(kbridge.coverage('C07'))
+    return res
